@@ -44,7 +44,7 @@ def states(tier):
     idv = [0, 1, 54321]
     trip = [t for t in itertools.permutations(idv, 3)] + [(x, x, x) for x in idv]
     S = []
-    base = dict(ids=(0, 0, 0, 0, 0, 0), setsid=0, cwd='root', stdin='null', env='three', sudo=0, logname=0, host='-', chain='', ptyowner=0, orphan=0)
+    base = dict(ids=(0, 0, 0, 0, 0, 0), setsid=0, cwd='root', stdin='null', env='three', sudo=0, logname=0, host='-', chain='', ptyowner=0, orphan=0, tz='VRF-3:30', newpgrp=0)
     # (b1) ids x gids
     for u in trip:
         for g in trip:
@@ -63,6 +63,10 @@ def states(tier):
     for h in ('-', 'short', 'h' * 64):
         for ch in ('', 'alpha', 'alpha/beta b', 'alpha/(x)/gamma'):
             S.append(dict(base, host=h, chain=ch))
+    # (b6) own process group without a new session; other time zones
+    for np in (0, 1):
+        for tz in ('UTC', 'VRF-3:30', 'ABC5DEF'):
+            S.append(dict(base, newpgrp=np, tz=tz, setsid=0))
     # (b5) ancestor chain of length one: orphaned process (parent is init / a subreaper), with and without a renamed chain above
     for ch in ('', 'alpha', 'alpha/beta b'):
         for ss in (0, 1):
@@ -77,7 +81,7 @@ def states(tier):
 
 def spec_of(st, ds, work):
     parts = ['ids=%s' % ','.join(map(str, st['ids'])), 'setsid=%d' % st['setsid'], 'cwd=' + st['cwd'], 'stdin=' + st['stdin'], 'env=' + st['env'], 'sudo=%d' % st['sudo'], 'logname=%d' % st['logname'],
-             'host=' + st['host'], 'ptyowner=%d' % st['ptyowner'], 'orphan=%d' % st.get('orphan', 0), 'work=' + work, 'ds=' + ','.join(hx(d) for d in ds)]
+             'host=' + st['host'], 'ptyowner=%d' % st['ptyowner'], 'orphan=%d' % st.get('orphan', 0), 'tz=' + st.get('tz', 'UTC'), 'newpgrp=%d' % st.get('newpgrp', 0), 'work=' + work, 'ds=' + ','.join(hx(d) for d in ds)]
     if st['chain']:
         parts.append('chain=' + '/'.join(hx(n) for n in st['chain'].split('/')))
     return ';'.join(parts)
@@ -179,7 +183,9 @@ def check_state(st, out, pw, gr, version):
         bad.append(('timestamp_ms', 'got=%r' % val('timestamp_ms')))
     if not re.match(r'^\d{6}$', val('timestamp_us')):
         bad.append(('timestamp_us', 'got=%r' % val('timestamp_us')))
-    if val('datetime') not in [time.strftime('%Y-%m-%dT%H:%M:%S+0000', time.gmtime(t)) for t in range(t0, t1 + 1)]:
+    os.environ['TZ'] = st.get('tz', 'UTC')
+    time.tzset()
+    if val('datetime') not in [time.strftime('%Y-%m-%dT%H:%M:%S%z', time.localtime(t)) for t in range(t0, t1 + 1)]:
         bad.append(('datetime', 'got=%r' % val('datetime')))
     expect('snoopy_version', version)
     expect('filename', '/bin/prog'); expect('cmdline', 'prog arg')
@@ -221,7 +227,7 @@ def run(ck):
     samples = []
     for st, (out, r, reports) in zip(S, pmap(one, S)):
         evals += 1
-        tag = 'ids=%s,sid=%d,cwd=%s,stdin=%s,env=%s,sudo=%d,logname=%d,host=%s,chain=%s,orphan=%d' % ('/'.join(map(str, st['ids'])), st['setsid'], st['cwd'], st['stdin'], st['env'], st['sudo'], st['logname'], st['host'][:8], st['chain'], st.get('orphan', 0))
+        tag = 'tz=%s,pg=%d,' % (st.get('tz', 'UTC'), st.get('newpgrp', 0)) + 'ids=%s,sid=%d,cwd=%s,stdin=%s,env=%s,sudo=%d,logname=%d,host=%s,chain=%s,orphan=%d' % ('/'.join(map(str, st['ids'])), st['setsid'], st['cwd'], st['stdin'], st['env'], st['sudo'], st['logname'], st['host'][:8], st['chain'], st.get('orphan', 0))
         if out is None or reports:
             ck.violation('C12:abort:%s' % tag, {'state': st, 'rc': r.returncode, 'stderr': r.stderr.decode('latin-1')[-400:], 'sanitizer': reports[:1]})
             continue
@@ -238,11 +244,12 @@ def run(ck):
     fm += ['%' + a + '-%' + b for a in sub for b in sub]
     fm += ['lit', 'a %Y b %% c', '%Y' * 10, '%c' * 5, 'x' * 70 + '%Y', 'x' * 79, 'x' * 80, '%', '%Q', '%E', '%Ey %Oy', '%10Y', '%-d', '%_H', '%^a']
     ds = ['datetime:' + f for f in fm]
-    out, r, reports = one(dict(ids=(0, 0, 0, 0, 0, 0), setsid=0, cwd='root', stdin='null', env='three', sudo=0, logname=0, host='-', chain='', ptyowner=0, orphan=0), ds)
+    fstate = dict(ids=(0, 0, 0, 0, 0, 0), setsid=0, cwd='root', stdin='null', env='three', sudo=0, logname=0, host='-', chain='', ptyowner=0, orphan=0, tz='VRF-3:30', newpgrp=0)
+    out, r, reports = one(fstate, ds)
     if out is None or reports:
         ck.violation('C12:abort:datetime_formats', {'rc': r.returncode, 'stderr': r.stderr.decode('latin-1')[-400:], 'sanitizer': reports[:1]})
     else:
-        os.environ['TZ'] = 'UTC'
+        os.environ['TZ'] = fstate['tz']
         time.tzset()
         t0, t1 = out['f']['t0'], out['f']['t1']
         for k, vv in out['ds'].items():
